@@ -3,44 +3,10 @@
    branches.  The case analysis is over the finite layout only (plan flags, kind of branch). *)
 From Coq Require Import List Bool Arith String Lia.
 Import ListNotations.
-From BV Require Import Lib.Obs Lib.Dag Theory.DagFacts Model.Reconf52 Theory.Reconf52Base.
+From BV Require Import Lib.Obs Lib.Dag Theory.DagFacts Model.Reconf52 Theory.Reconf52Base Theory.Reconf52Wf.
 Open Scope string_scope.
 Open Scope nat_scope.
 Open Scope list_scope.
-
-Definition has_local (w : world) : bool := is_some (local_of w).
-Definition has_ref (w : world) : bool := is_some (refd_of w).
-
-(* what the factories guarantee about the plans they hand to apply() *)
-Definition plan_wf (p : plan) (w : world) : bool :=
-  implb (p_destroy_branch p) (p_create_reference p && has_local w)
-  && implb (p_destroy_reference p) (p_create_branch p && has_ref w)
-  && implb (p_create_branch p) (negb (has_local w) && negb (p_create_reference p)
-                                && (p_destroy_reference p || negb (has_ref w))
-                                && (is_some (find_repo w) || p_create_repository p))
-  && implb (p_create_reference p) (negb (has_ref w) && negb (p_create_repository p)
-                                   && (p_destroy_branch p || negb (has_local w)))
-  && implb (p_create_repository p) (negb (is_some (w_repo w)) && negb (p_destroy_repository p))
-  && implb (p_destroy_repository p) (is_some (w_repo w))
-  && implb (p_destroy_repository p && p_create_reference p)
-           (match w_repo w with Some r => negb (r_shared r) | None => false end)
-  && implb (p_destroy_tree p) (is_some (w_tree w) && negb (p_create_tree p))
-  && implb (p_create_tree p) (negb (is_some (w_tree w)))
-  && implb (p_unbind p) (has_local w && negb (p_bind p))
-  && implb (p_bind p) (p_create_branch p || (has_local w && negb (p_destroy_branch p)))
-  && implb (has_ref w && negb (p_destroy_reference p)) (negb (p_create_branch p) && negb (p_create_reference p)).
-
-Lemma factory_wf w t p : factory w t = inl p -> plan_wf p w = true.
-Proof.
-  destruct w as [g rp ou br tr inn sib far].
-  unfold factory, plan_wf, has_local, has_ref, facts_of, find_repo, local_of, refd_of, wants,
-         set_use_shared, plan_changes, changes_planned.
-  cbn [w_repo w_outer w_branch w_tree w_inner w_sib w_far].
-  destruct t as [| | | | | |[]]; destruct rp as [[[] [] ?]|]; destruct ou as [[? [] ?]|];
-    destruct tr; (destruct br as [|[? ? [[[] ?]|] ? ?]|[|[|[|l]]]]; cbn;
-    [..|destruct inn|destruct sib|destruct far|]); cbn;
-    intros H; try discriminate H; injection H as <-; reflexivity.
-Qed.
 
 (* ---------------------------------------------------------------------------------------------- *)
 Section Chain.
@@ -81,7 +47,7 @@ Definition branch_at (j : nat) : branch_st :=
 Definition efft (b : branch_st) (tips : loc -> option (option revid)) : option (option revid) :=
   match b with BLocal x => Some (b_tip x) | BRef l => tips l | BNone => None end.
 Lemma eff_tip_efft w : eff_tip w = efft (w_branch w) (fun l => otip (get_other w l)).
-Proof. unfold eff_tip, efft, otip. destruct (w_branch w); auto. destruct (get_other w l); auto. Qed.
+Proof. unfold eff_tip, efft, otip. destruct (w_branch w) as [|b|l]; auto. Qed.
 
 Definition tips0 : loc -> option (option revid) := fun l => otip (get_other w0 l).
 Definition T9 : option tree :=
@@ -117,7 +83,8 @@ Lemma Inv_step j s w1 w2 :
   nth_error (steps nb p w0) j = Some s -> Inv j w1 -> s w1 = Ok w2 -> Inv (S j) w2.
 Proof.
   intros Hn (Hb & Ht & Htr & Htg) Hs.
-  step_cases j Hn.
+  apply steps_cases in Hn.
+  destruct Hn as [[-> ->]|[[-> ->]|[[-> ->]|[[-> ->]|[[-> ->]|[[-> ->]|[[-> ->]|[[-> ->]|[[-> ->]|[[-> ->]|[[-> ->]|[[-> ->]|[-> ->]]]]]]]]]]]]].
   - (* create_repository *)
     pose proof (s1_frame p w0 w1) as F. rewrite (ok_world _ _ _ Hs) in F. cbn in F.
     destruct F as (_ & _ & Fb & Ftr & Fi & Fs & Ff). destruct (others_same w1 w2 Fi Fs Ff) as [O1 O2].
@@ -206,7 +173,7 @@ Proof.
                                | intros l; rewrite O2; apply Htg].
     unfold step_unbind in Hs. cbn [branch_at] in *. unfold B10.
     destruct (p_unbind p); [|injection Hs as <-; auto].
-    rewrite Hb in Hs. destruct B8; injection Hs as <-; reflexivity.
+    rewrite Hb in Hs. destruct B8; injection Hs as <-; cbn; auto.
   - (* bind *)
     pose proof (s8_frame p w0 nb w1) as F. rewrite (ok_world _ _ _ Hs) in F. cbn in F.
     destruct F as (_ & _ & _ & Ftr & Fi & Fs & Ff). destruct (others_same w1 w2 Fi Fs Ff) as [O1 O2].
@@ -216,7 +183,7 @@ Proof.
     destruct (p_bind p); [|injection Hs as <-; auto].
     destruct (select_bind w0 nb) as [l|]; [|discriminate Hs].
     destruct (get_other w1 l); [|discriminate Hs].
-    rewrite Hb in Hs. destruct B10; try discriminate Hs. injection Hs as <-. reflexivity.
+    rewrite Hb in Hs. destruct B10; try discriminate Hs. injection Hs as <-. cbn; auto.
   - (* destroy_repository *)
     pose proof (s9_frame p w1) as F. rewrite (ok_world _ _ _ Hs) in F. cbn in F.
     destruct F as (_ & _ & Fb & Ftr & Fi & Fs & Ff). destruct (others_same w1 w2 Fi Fs Ff) as [O1 O2].
@@ -231,7 +198,7 @@ Qed.
 
 Lemma Inv_0 : Inv 0 w0.
 Proof.
-  split; [|split; [|split]]; auto. intros l. unfold tags_at. reflexivity.
+  split; [|split; [|split]]; auto.
 Qed.
 
 (* what a completed apply() leaves: the branch, the other branches' tips and tags, the tree *)
@@ -239,3 +206,82 @@ Lemma apply_final force w' : apply force nb p w0 = Ok w' -> Inv 13 w'.
 Proof. intros H. exact (apply_ok_inv Inv force nb p w0 w' Inv_0 Inv_step H). Qed.
 
 End Chain.
+
+(* ---- a created reference points to an existing branch ------------------------------------------ *)
+Section Chain2.
+Variables (p : plan) (w0 : world) (nb : option loc).
+
+Definition RefOk (j : nat) : Prop :=
+  3 <= j -> p_create_reference p = true ->
+  select_bind w0 nb <> None /\ is_some (tips0 w0 (l8 w0 nb)) = true.
+
+Definition Inv2 (j : nat) (w : world) : Prop := Inv p w0 nb j w /\ RefOk j.
+
+Lemma Inv2_step j s w1 w2 :
+  nth_error (steps nb p w0) j = Some s -> Inv2 j w1 -> s w1 = Ok w2 -> Inv2 (S j) w2.
+Proof.
+  intros Hn [HI HR] Hs. split; [exact (Inv_step p w0 nb j s w1 w2 Hn HI Hs)|].
+  intros Hj Hcr. destruct (Nat.eq_dec j 2) as [->|Hne]; [|apply HR; [lia|exact Hcr]].
+  apply steps_cases in Hn.
+  destruct Hn as [[E _]|[[E _]|[[_ ->]|[[E _]|[[E _]|[[E _]|[[E _]|[[E _]|[[E _]|[[E _]|[[E _]|[[E _]|[E _]]]]]]]]]]]]];
+    try discriminate E.
+  unfold step_open_reference in Hs. rewrite Hcr in Hs. unfold l8.
+  destruct (select_bind w0 nb) as [l|]; [|discriminate Hs].
+  destruct (get_other w1 l) as [o|] eqn:Eo; [|discriminate Hs].
+  destruct HI as (_ & Ht & _). split; [discriminate|]. rewrite <- Ht, Eo. reflexivity.
+Qed.
+
+Lemma apply_final2 force w' : apply force nb p w0 = Ok w' -> Inv2 13 w'.
+Proof.
+  intros H. apply (apply_ok_inv Inv2 force nb p w0 w'); [|exact Inv2_step|exact H].
+  split; [apply Inv_0|]. intros Hj. lia.
+Qed.
+End Chain2.
+
+Lemma is_some_otip (o : option obranch) : is_some (otip o) = is_some o.
+Proof. destruct o; reflexivity. Qed.
+
+Lemma is_some_ref (o : option obranch) (l : loc) :
+  is_some (match o with Some x => Some (l, x) | None => None end) = is_some o.
+Proof. destruct o; reflexivity. Qed.
+
+(* ---- C52_plan_reaches_target ------------------------------------------------------------------- *)
+
+Definition facts_reached (f : facts) (wn : bool * bool * bool * bool) : bool :=
+  let '(wt, wb, wbd, wr) := wn in
+  Bool.eqb (f_tree f) wt && Bool.eqb (is_some (f_lb f)) wb
+  && Bool.eqb (match f_lb f with Some b => b | None => false end) wbd && Bool.eqb (f_ref f) wr.
+
+Lemma factory_plan w t p wt wb wbd wr :
+  wants t = Some (wt, wb, wbd, wr) -> factory w t = inl p ->
+  plan_changes (facts_of w) wt wb wbd wr = Some p.
+Proof.
+  destruct t; cbn [wants]; intros Hw Hf; try discriminate Hw; injection Hw as <- <- <- <-;
+    unfold factory in Hf; cbn [wants] in Hf;
+    (destruct (plan_changes (facts_of w) _ _ _ _) as [p0|]; [|discriminate Hf]);
+    (destruct (changes_planned p0); [|discriminate Hf]); congruence.
+Qed.
+
+Theorem reaches_target t force nb w w' wn :
+  wants t = Some wn -> reconfigure t force nb w = Ok w' -> facts_reached (facts_of w') wn = true.
+Proof.
+  intros Hw H. unfold reconfigure in H. destruct (factory w t) as [p|e] eqn:Hf; [|discriminate H].
+  destruct wn as [[[wt wb] wbd] wr].
+  pose proof (factory_plan _ _ _ _ _ _ _ Hw Hf) as Hp.
+  destruct (apply_final2 p w nb force w' H) as [(Hb & Ht & Htr & _) H5].
+  assert (Hex : forall l, is_some (get_other w' l) = is_some (get_other w l)).
+  { intros l. rewrite <- !is_some_otip. rewrite Ht. reflexivity. }
+  assert (H5' : p_create_reference p = true -> is_some (get_other w (l8 w nb)) = true).
+  { intros Hcr. destruct (H5 ltac:(lia) Hcr) as [_ H6]. unfold tips0 in H6. rewrite is_some_otip in H6. exact H6. }
+  clear H5. rename H5' into H5.
+  unfold facts_reached, facts_of, local_of, refd_of. rewrite Hb, Htr. cbn [branch_at tree_at Nat.leb].
+  unfold plan_changes in Hp.
+  destruct t; cbn [wants] in Hw; try discriminate Hw; injection Hw as <- <- <- <-; cbn in Hp;
+    injection Hp as <-; revert H5;
+    unfold B11, B10, B8, B7, B6, B5, T9, new_branch, bind_b, unbind_b, facts_of, local_of, refd_of, is_bound;
+    cbn [p_unbind p_bind p_destroy_reference p_create_reference p_destroy_branch p_create_branch
+         p_destroy_tree p_create_tree p_create_repository p_destroy_repository f_ref f_lb f_tree f_repo];
+    destruct (w_tree w); (destruct (w_branch w) as [|[tip tags [[[] bl]|] push parent]|l]; cbn;
+    [..|destruct (get_other w l) eqn:Eo; cbn]);
+    intros H5; rewrite ?is_some_ref, ?Hex, ?Eo; cbn; try reflexivity; try (rewrite (H5 eq_refl); reflexivity).
+Qed.
